@@ -22,7 +22,7 @@ func init() {
 			"(a2) a collection is not mutated after it has been published into a field; (b) a field written after construction that no access locks is reachable from one sequential thread root only; " +
 			"(d) methods called on plain data objects held in guarded fields do not write through the receiver unless the caller holds the write lock; (e) collections shared by the instances of a fan-out goroutine are written and read only with a lock held; " +
 			"(f) every ExecutionConfigurator.ProposerConfig returns a fresh object (callers modify it). " +
-			"Added with the third seeding round: (g) package-level collections written after init are accessed only under the package-level mutex held at their other accesses; (h) collections obtained from a duty's getters are never changed in place. Added with the fourth seeding round: (i) a duty captured by a scheduled job is not written by the scheduling function afterwards. Added with the seventh seeding round: (a2, extended) a map read from a field that is replaced as a whole is never changed in place without a lock. Not decided: happens-before through channels, WaitGroups and atomics beyond these shapes, atomicity across two critical sections, hand-off objects (duties, responses) whose exclusive ownership moves between goroutines, races inside libraries, library-created concurrency (an event stream delivering on several goroutines).",
+			"Added with the third seeding round: (g) package-level collections written after init are accessed only under the package-level mutex held at their other accesses; (h) collections obtained from a duty's getters are never changed in place. Added with the fourth seeding round: (i) a duty captured by a scheduled job is not written by the scheduling function afterwards. Added with the seventh seeding round: (a2, extended) a map read from a field that is replaced as a whole is never changed in place without a lock. Added with the eleventh seeding round: (i, extended) a map or slice made by a function and stored into a service field is not written by that function afterwards. Not decided: happens-before through channels, WaitGroups and atomics beyond these shapes, atomicity across two critical sections, hand-off objects (duties, responses) whose exclusive ownership moves between goroutines, races inside libraries, library-created concurrency (an event stream delivering on several goroutines).",
 		Rule: "lock sets (must-hold, per instruction, plus the locks held at every call site of lock-free helpers) × field-access enumeration over SSA × thread roots from the VTA call graph",
 		Assumptions: []string{
 			"a lock is identified by (owner struct type, field): two instances of one service type are not distinguished",
@@ -383,6 +383,74 @@ func runC17(p *core.Prog, r *core.Report, tier string) {
 		}
 	}
 	r.Floor("C17.i duties handed to scheduled jobs", nHand, 4)
+	// (i, extended) a collection is complete when it is published: after a map or slice that a function has made is
+	// stored into a field of a service, the function does not go on writing it (the readers of the field take it under
+	// the field's lock and then use it without — they would see it half filled, and a map read during a write crashes)
+	nPub := 0
+	for _, fn := range p.SrcFuncs() {
+		rel := core.RelPkg(fn.Pkg.Pkg.Path())
+		if !strings.HasPrefix(rel, "services/") || len(fn.Blocks) == 0 || fn.Name() == "New" || fn.Name() == "init" {
+			continue
+		}
+		core.EachInstr(fn, func(in ssa.Instruction) {
+			st, ok := in.(*ssa.Store)
+			if !ok {
+				return
+			}
+			fa, ok := st.Addr.(*ssa.FieldAddr)
+			if !ok {
+				return
+			}
+			if _, isParam := fa.X.(*ssa.Parameter); !isParam {
+				return
+			}
+			switch st.Val.(type) {
+			case *ssa.MakeMap, *ssa.MakeSlice:
+			default:
+				return
+			}
+			nPub++
+			id, _, _ := core.FieldOfAddr(fa)
+			var writer ssa.Instruction
+			w := core.PathQuery{Fn: fn, From: st, Target: func(x ssa.Instruction) bool {
+				switch y := x.(type) {
+				case *ssa.MapUpdate:
+					if y.Map == st.Val {
+						writer = x
+						return true
+					}
+				case *ssa.Store:
+					if ia, ok := y.Addr.(*ssa.IndexAddr); ok && ia.X == st.Val {
+						writer = x
+						return true
+					}
+				case *ssa.Call:
+					for i, a := range y.Call.Args {
+						if a != st.Val {
+							continue
+						}
+						g := y.Call.StaticCallee()
+						if g == nil {
+							continue
+						}
+						k := i
+						if k < len(g.Params) && len(writesThrough(p, g, g.Params[k], 3, map[*ssa.Function]bool{})) > 0 {
+							writer = x
+							return true
+						}
+					}
+				}
+				return false
+			}}.Find()
+			where := ""
+			if writer != nil {
+				where = p.Pos(writer.Pos())
+			}
+			r.Check(w == nil, "C17.i", fmt.Sprintf("%s|published-then-written|%s#%d", core.FnKey(fn), id.Name, nPub), p.Pos(st.Pos()), "the collection stored into "+id.String()+" is complete when it is stored",
+				"the collection made here is stored into "+id.String()+" and written afterwards (at "+where+"): readers of the field see it while it is being filled, without a lock on the collection itself", p.WitnessText(w)...)
+		})
+	}
+	r.Count("collections published into service fields", nPub)
 	// collections handed out by a duty's getters belong to the duty, which is shared between the jobs of several
 	// slots and the records published for verification: consumers read them, never change them
 	nGet, nMut := 0, 0
